@@ -966,6 +966,7 @@ impl<E: ElemT> TableWorld<E> {
 
     fn op_clear(&mut self, si: usize, op: &Op) -> VResult {
         let fc = self.fctx(si, op);
+        let cap0 = self.tab(si).capacity();
         let size0 = self.tab(si).allocation_size();
         let t = self.slots[si].t.as_mut().unwrap();
         let out = self.ctx.call(op, || t.clear());
@@ -977,6 +978,9 @@ impl<E: ElemT> TableWorld<E> {
         self.dropped_check(&model, "clear()")?;
         if self.ctx.last_alloc_calls + self.ctx.last_dealloc_calls != 0 || self.tab(si).allocation_size() != size0 {
             vio!(self, "cap/clear-changed-allocation", "clear() changed the allocation {} -> {}", size0, self.tab(si).allocation_size());
+        }
+        if self.tab(si).capacity() < cap0 {
+            vio!(self, "cap/clear-lost-capacity", "after clear() capacity() is {} (it was {cap0} before)", self.tab(si).capacity());
         }
         Ok(())
     }
@@ -1072,6 +1076,9 @@ impl<E: ElemT> TableWorld<E> {
                     }
                     hashbrown::TryReserveError::AllocError { ref layout } => {
                         sim().probe(Probe::RefusedAlloc);
+                        if need * esz > isize::MAX as u128 {
+                            vio!(self, "tryreserve/alloc-for-unrepresentable", "try_reserve({n}) with len {len} and element size {esz} cannot be represented, yet the allocator was asked for {:?} instead of reporting CapacityOverflow", self.ctx.last_refused_layout);
+                        }
                         if self.ctx.last_refused == 0 {
                             vio!(self, "tryreserve/phantom-allocerror", "try_reserve({n}) reported AllocError but the allocator refused nothing");
                         }
@@ -1220,6 +1227,7 @@ impl<E: ElemT> TableWorld<E> {
         let steps = op.a;
         let forget = op.b == 1;
         let fc = self.fctx(si, op);
+        let cap0 = self.tab(si).capacity();
         let size0 = self.tab(si).allocation_size();
         let n0 = self.slots[si].model.len();
         let t = self.slots[si].t.as_mut().unwrap();
@@ -1311,6 +1319,9 @@ impl<E: ElemT> TableWorld<E> {
         }
         if !forget && (t.allocation_size() != size0 || self.ctx.last_alloc_calls + self.ctx.last_dealloc_calls != 0) {
             vio!(self, "drain/allocation", "drain changed the allocation: {} -> {} bytes", size0, t.allocation_size());
+        }
+        if !forget && self.tab(si).capacity() < cap0 {
+            vio!(self, "drain/capacity-lost", "after drain capacity() is {} although the collection is empty and keeps its allocation (it was {cap0} before)", self.tab(si).capacity());
         }
         Ok(())
     }
